@@ -75,17 +75,24 @@ class Watch:
         self.closed = False
         self.last_delivery = 0.0
         self.delivered: list[tuple[float, str, str, str]] = []   # (time, type, name, rv)
+        self.pending: list[tuple[float, Any]] = []
 
     def push(self, item: Any, delay: float = 0.0) -> None:
-        """Deliver an item (event dict, or a control tuple) after `delay`, keeping per-watch order."""
+        """Deliver an item (event dict, or a control tuple) after `delay`, keeping per-watch FIFO
+        order (asyncio's timer heap does not order equal deadlines, so one drain callback per
+        deadline delivers everything due, in push order)."""
         loop = asyncio.get_event_loop()
         when = max(self.last_delivery, loop.time() + delay)
         self.last_delivery = when
-        loop.call_at(when, self._deliver, item)
+        self.pending.append((when, item))
+        loop.call_at(when, self._drain)
 
-    def _deliver(self, item: Any) -> None:
-        if not self.closed:
-            self.queue.put_nowait(item)
+    def _drain(self) -> None:
+        now = asyncio.get_event_loop().time()
+        while self.pending and self.pending[0][0] <= now:
+            _, item = self.pending.pop(0)
+            if not self.closed:
+                self.queue.put_nowait(item)
 
     def close(self) -> None:
         self.closed = True
